@@ -218,7 +218,11 @@ def extract(name, path, flags, repo=None, work=None, extra_flags=()):
     scratch = repo != REPO
     key = _sha(_read(path), " ".join(f.replace(repo, "@") for f in flags), _headers_hash(repo, cfg))
     maindir = os.path.join(work, "facts")
-    cdir = os.path.join(work, "facts-st") if scratch else maindir
+    cdir = os.path.join(work, "facts-st-%s" % os.environ.get("PLINT_SCRATCH_ID", os.getpid())) if scratch else maindir
+    if scratch and not os.path.isdir(cdir) and "PLINT_SCRATCH_ID" not in os.environ:
+        import atexit
+        import shutil
+        atexit.register(shutil.rmtree, cdir, True)     # the scratch cache is private to this process and disposable
     os.makedirs(cdir, exist_ok=True)
     cfile = os.path.join(cdir, "%s.%s.json" % (name, key[:24]))
     if scratch:
